@@ -70,7 +70,12 @@ fn alternates(scn: &DebugScenario) -> Vec<(Transport, u64, &'static str)> {
     if n > 0 {
         out.push((Transport::Split(rng.usize_below(n + 1)), rng.next_u64() | 1, "split"));
     }
-    out.push((Transport::Terminal, rng.next_u64() | 1, "terminal"));
+    // (a control character cannot be typed into the line editor: a Tab key is not a tab in the
+    // line)
+    let typable = !scn.script.iter().any(|i| i.render().chars().any(|c| (c as u32) < 0x20));
+    if typable {
+        out.push((Transport::Terminal, rng.next_u64() | 1, "terminal"));
+    }
     out.retain(|(t, s, _)| !(*t == scn.transport && *s == scn.sep_seed));
     out
 }
